@@ -78,7 +78,7 @@ def window(batch, n):
 
 
 KINDS = ('obj', 'map', 'pair', 'str', 'int', 'mix', 'mixstr', 'dict',
-         'pairdict')
+         'pairdict', 'pairmap')
 PREFIXES = ('p', 'my_row')
 CONTAINERS = ('list', 'tuple', 'iter', 'gen', 'lazy')
 FIXED = ('item', 'key', 'index', 'number', 'letter', 'Letter', 'roman',
@@ -130,6 +130,10 @@ def elements(kind, xs):
             # plain dictionaries iterated *without* `mapping`: client
             # objects like any other, their keys are not names
             out.append({'id': i, 'x': x})
+        elif kind == 'pairmap':
+            # (key, mapping) pairs iterated with `mapping` (dict.items() of
+            # a dictionary of records)
+            out.append(('k%d' % i, {'id': i, 'x': x}))
         elif kind == 'pairdict':
             out.append(('k%d' % i, {'id': i, 'x': x}))
         elif kind == 'str':
@@ -159,7 +163,7 @@ def container(kind, items):
 
 def option_sets(kind):
     opts = ['no_push_item', 'prefix', 'reverse']
-    if kind in ('obj', 'map', 'pair'):
+    if kind in ('obj', 'map', 'pair', 'pairmap'):
         opts.append('sort')
     if kind in ('mix', 'mixstr'):
         opts.remove('reverse')
@@ -196,7 +200,7 @@ def cases(tier):
 
 
 def body_source(kind, opts, batch, pname='p'):
-    has_x = kind in ('obj', 'map', 'pair', 'mix')
+    has_x = kind in ('obj', 'map', 'pair', 'mix', 'pairmap')
     cells = []
 
     def var(name):
@@ -207,7 +211,7 @@ def body_source(kind, opts, batch, pname='p'):
 
     for pre in (['sequence-'] + ([pname + '_'] if 'prefix' in opts else [])):
         for f in FIXED:
-            if f == 'key' and kind not in ('pair', 'pairdict'):
+            if f == 'key' and kind not in ('pair', 'pairdict', 'pairmap'):
                 continue
             (boolean if f in BOOLS else var)(pre + f)
     if has_x:
@@ -235,7 +239,7 @@ def template(kind, opts, batch, pname='p', abort=False):
         # handles it: nothing the loop bound may be visible afterwards
         from DocumentTemplate import HTML
         attrs = []
-        if kind == 'map':
+        if kind in ('map', 'pairmap'):
             attrs.append('mapping')
         for o in opts:
             attrs.append({'prefix': 'prefix=' + pname,
@@ -252,7 +256,7 @@ def template(kind, opts, batch, pname='p', abort=False):
     if t is None:
         from DocumentTemplate import HTML
         attrs = []
-        if kind == 'map':
+        if kind in ('map', 'pairmap'):
             attrs.append('mapping')
         for o in opts:
             attrs.append({'prefix': 'prefix=' + pname,
@@ -283,7 +287,7 @@ def expected(kind, opts, batch, xs):
     seq = [items[i] for i in order]
     sx = [xs[i] for i in order]
     first, last = window(batch, n)
-    has_x = kind in ('obj', 'map', 'pair', 'mix')
+    has_x = kind in ('obj', 'map', 'pair', 'mix', 'pairmap')
     rows = []
     for i in range(first, last + 1):
         it = seq[i]
@@ -301,7 +305,7 @@ def expected(kind, opts, batch, xs):
         cells = []
         for _pre in (['sequence-'] + (['p_'] if 'prefix' in opts else [])):
             for f in FIXED:
-                if f == 'key' and kind not in ('pair', 'pairdict'):
+                if f == 'key' and kind not in ('pair', 'pairdict', 'pairmap'):
                     continue
                 cells.append(fixed[f])
         if has_x:
@@ -327,10 +331,10 @@ def first_difference(got, exp, kind, opts, batch):
     names = []
     for pre in (['sequence-'] + (['p_'] if 'prefix' in opts else [])):
         for f in FIXED:
-            if f == 'key' and kind not in ('pair', 'pairdict'):
+            if f == 'key' and kind not in ('pair', 'pairdict', 'pairmap'):
                 continue
             names.append(pre + f)
-    if kind in ('obj', 'map', 'pair', 'mix'):
+    if kind in ('obj', 'map', 'pair', 'mix', 'pairmap'):
         names.append('sequence-var-x')
         if not batch:
             names += ['first-x', 'last-x']
@@ -499,7 +503,8 @@ def run(case):
         res.nontrivial = True
         return res
     n = case['n']
-    has_x = case['kind'] in ('obj', 'map', 'pair', 'mix', 'mixstr')
+    has_x = case['kind'] in ('obj', 'map', 'pair', 'mix', 'mixstr',
+                             'pairmap')
     pats = itertools.product((1, 2), repeat=n) if has_x else [(1,) * n]
     if case.get('dom') == 'falsy':
         pats = itertools.product((0, None, '', 3), repeat=n)
